@@ -69,8 +69,14 @@ def maybe_download(url: str,
       r.raise_for_status()
       length = int(r.headers['content-length'])
       block_size = 1 << 18
+      num_bytes = 0
       for _ in progress_((length + block_size - 1) // block_size):
-        fo.write(r.raw.read(block_size))
+        num_bytes += fo.write(r.raw.read(block_size))
+      if num_bytes != length:
+        # E.g. the server closed the connection early: the last read is short
+        # and raises nothing.
+        raise IOError(
+            f'Incomplete download of {url!r}: got {num_bytes} of {length} bytes')
     os.rename(path + '.partial', path)
   return path
 
